@@ -844,3 +844,135 @@ class ActorLoop(ActorStep):
         if self.with_request:
             out.append(Cover('request handled'))
         return out
+
+
+# ---------------------------------------------------------------------- history from the real constructor (no field of the actor is named)
+from interp import concrete_int
+
+
+class SubscriptionActorHistory(Obligation):
+    """SubscriptionActor::start run for real; the spawned actor task is fed a fixed history through its mailbox and the answers are
+    compared with the obvious reference.  Nothing of the actor's representation is named: the obligation survives added fields,
+    other containers, cached values."""
+    tier = 'T3'
+
+    def __init__(self, ctx, id_):
+        self.id = id_
+        self.desc = ('the subscription actor as started by SubscriptionActor::start, fed Post[m1,m2,m3], Pull(2), Stats, Ack[A1], Stats, Nack[A2], Stats, Pull(10), '
+                     'Ack[A1] again, Stats through its mailbox within one second: deliveries in publish order, nacked message re-queued at the tail, fresh ack '
+                     'ids, an ack removes exactly its delivery, a stale ack does nothing')
+        self.bounds = {'history': 'the 10 requests above', 'time': 'all clock readings within 1 s (no expiry)', 'select! start index': 0}
+        self.unroll = 10
+        install_tokens(ctx)
+
+    def body(self, ip, p):
+        ctx = ip.ctx
+        from models_async import ReceiverM, OneshotTx, poll_future
+        from props.C16 import default_reply
+        ctx.on_enqueue = default_reply
+        p.timers_never_fire = True
+        p.signals_never_fire = True
+        p.clock_span_ns = NS
+        p.select_in_order = True
+        U = ctx.tok_ufs
+        name = sym_name(ctx, p, 'SubscriptionName', 'own')
+        secs = p.fresh('ack_deadline_s')
+        p.assume(z3.And(secs >= 10, secs <= 600))
+        info = mk(ctx, 'SubscriptionInfo', name=name, ack_deadline=S(secs * NS, 'Duration'), push_config=Enum('Option', 0, {}))
+        observer = run_to_end(ip.call_fn(ctx.fn('SubscriptionObserver', 'new'), []))
+        mstate = Cell(mk_opt(ctx, 'State', 'subscriptions/subscription_manager', subscriptions=MapM([]), next_id=S(p.fresh('s_next'), 'u32')), 'smgr-state')
+        delegate = mk(ctx, 'SubscriptionManagerDelegate', state=ArcCell(Cell(LockM('subscription_manager.state', mstate))))
+        pstate = Cell(mk(ctx, 'PushSubscriptionsRegistryState', push_subscriptions=MapM([])), 'pstate')
+        reg = mk(ctx, 'PushSubscriptionsRegistry', state=ArcCell(Cell(LockM('push_registry.state', pstate))))
+        n0 = len(p.log)
+        run_to_end(ip.call_fn(ctx.fn('SubscriptionActor', 'start'),
+                              [S(p.fresh('iid'), 'u32'), info, ArcTok(p.fresh('topic_tok'), 'Topic'), ArcCell(Cell(observer, 'observer')), reg, delegate]))
+        spawned = [e for e in p.log[n0:] if e[0] == 'spawn']
+        if len(spawned) != 1:
+            raise Unsupported('SubscriptionActor::start spawned %d tasks' % len(spawned))
+        task = spawned[0][1]
+        ms = [p.fresh('m%d_tok' % i) for i in (1, 2, 3)]
+        p.assume(z3.Distinct(ms))
+        ev = ctx.src.enum_variants('SubscriptionRequest')
+        idx = {n: i for i, (n, _) in enumerate(ev)}
+        txs = {}
+
+        def tx(label):
+            p.counter += 1
+            t = OneshotTx(p.counter)
+            txs[label] = t
+            return t
+
+        def req(variant, **kw):
+            return Enum('SubscriptionRequest', idx[variant], {idx[variant]: tuple(kw[n] for n in ev[idx[variant]][1])})
+        # the ack ids the first pull will hand out are not known yet: the later requests are appended once they are
+        rx = ReceiverM([req('PostMessages', messages=Seq([ArcTok(t, 'TopicMessage') for t in ms], 3, 'vec')),
+                        req('PullMessages', max_count=S(z3.IntVal(2), 'u16'), responder=tx('pull1')),
+                        req('GetStats', responder=tx('stats1'))])
+        ups = list(task.upvars) if hasattr(task, 'upvars') else None
+        if ups is None:
+            raise Unsupported('spawned task is not a coroutine value')
+        k = [i for i, u in enumerate(ups) if isinstance(u, Opaque) and u.tag == 'mpsc.Receiver']
+        if len(k) != 1:
+            raise Unsupported('the actor task does not own exactly one mailbox')
+        ups[k[0]] = rx
+        cell = Cell(Enum(task.name, task.discr, task.payload, ups), 'actor-task')
+
+        def drive():
+            r = run_to_end(poll_future(ip, Loc(cell)))
+            if r.discr != 1 or rx.items:
+                raise Unsupported('the actor task did not park after the requests (ended: %s, left: %d)' % (r.discr == 0, len(rx.items)))
+        drive()
+        sent = lambda label: getattr(p, 'sent', {}).get(txs[label].cid)
+        first = sent('pull1')
+        if first is None or first.discr != 0:
+            return {'first': first}
+        batch1 = first.payload[0][0]
+        n1 = concrete_int(batch1.n) if concrete_int(batch1.n) is not None else None
+        if n1 != 2:
+            return {'first': first, 'n1': batch1.n}
+        a1, a2 = [fld(ctx, e, 'PulledMessage', 'ack_id') for e in batch1.elems[:2]]
+        rx.items += [req('AcknowledgeMessages', ack_ids=Seq([a1], 1, 'vec'), responder=tx('ack1')),
+                     req('GetStats', responder=tx('stats2')),
+                     req('ModifyDeadline', deadline_modifications=Seq([mk(ctx, 'DeadlineModification', ack_id=a2, new_deadline=Enum('Option', 0, {}))], 1, 'vec'),
+                         responder=tx('nack2')),
+                     req('GetStats', responder=tx('stats3')),
+                     req('PullMessages', max_count=S(z3.IntVal(10), 'u16'), responder=tx('pull2')),
+                     req('AcknowledgeMessages', ack_ids=Seq([a1], 1, 'vec'), responder=tx('ack1again')),
+                     req('GetStats', responder=tx('stats4'))]
+        drive()
+        return {'first': first, 'ms': ms, 'a1': a1, 'a2': a2, 'replies': {k_: sent(k_) for k_ in txs}}
+
+    def post(self, ip, p, res):
+        ctx = ip.ctx
+        first = res['first']
+        out = [Claim('the first pull succeeds', first is not None and first.discr == 0)]
+        if 'replies' not in res:
+            out.append(Claim('the first pull hands out exactly two deliveries', False))
+            return out
+        ms, rp = res['ms'], res['replies']
+        out.append(Claim('every request was answered', all(v is not None for v in rp.values())))
+        if not all(v is not None and v.discr == 0 for v in rp.values()):
+            out.append(Claim('every request succeeds', False))
+            return out
+        tok_of = lambda pm: fld(ctx, pm, 'PulledMessage', 'message').tok
+        ack = lambda pm: ack_of(ctx, fld(ctx, pm, 'PulledMessage', 'ack_id'))
+        b1 = first.payload[0][0]
+        a1, a2 = ack_of(ctx, res['a1']), ack_of(ctx, res['a2'])
+        out.append(Claim('pull 1: m1, m2 in publish order, two different ack ids', z3.And(tok_of(b1.elems[0]) == ms[0], tok_of(b1.elems[1]) == ms[1], a1 != a2)))
+
+        def stats(label):
+            s_ = rp[label].payload[0][0]
+            return (fld(ctx, s_, 'SubscriptionStats', 'outstanding_messages_count').t, fld(ctx, s_, 'SubscriptionStats', 'backlog_messages_count').t)
+        for label, want, what in (('stats1', (2, 1), 'after the first pull'), ('stats2', (1, 1), 'after acking A1'), ('stats3', (0, 2), 'after nacking A2'),
+                                  ('stats4', (2, 0), 'after the second pull and a stale ack of A1')):
+            o, b = stats(label)
+            out.append(Claim('%s: %d outstanding, %d in the backlog' % (what, want[0], want[1]), z3.And(o == want[0], b == want[1])))
+        b2 = rp['pull2'].payload[0][0]
+        out.append(Claim('pull 2 hands out the two remaining messages', b2.n == 2))
+        if len(b2.elems) >= 2:
+            out.append(Claim('pull 2: m3 first (it was never handed out), then the nacked m2', z3.Implies(b2.n == 2, z3.And(tok_of(b2.elems[0]) == ms[2], tok_of(b2.elems[1]) == ms[1]))))
+            out.append(Claim('pull 2 uses fresh ack ids (the nacked delivery does not keep A2)',
+                             z3.Implies(b2.n == 2, z3.Distinct(a1, a2, ack(b2.elems[0]), ack(b2.elems[1])))))
+        out.append(Cover('reached'))
+        return out
